@@ -9,7 +9,7 @@ CONSTANTS
   MaxCuts = 2
   DEV_RehashDebounce = TRUE
   DEV_LeaderKeepsAdoptedRing = TRUE
-  DEV_SelfExcludedCrash = TRUE
+  DEV_SelfExcludedCrash = FALSE
 INIT GInit
 NEXT GNext
 INVARIANT Emit
